@@ -2,6 +2,7 @@ mod alloc_watch;
 mod exec;
 mod frames;
 mod logsub;
+mod neighbours;
 mod props;
 mod real_client;
 mod runner;
